@@ -2122,10 +2122,17 @@ func (gs *GossipSubRouter) flush() {
 		gs.sendRPC(p, out, false)
 	}
 
-	// send the remaining control messages that wasn't merged with gossip
+	// send the remaining control messages that wasn't merged with gossip; like the
+	// retries that are piggybacked onto other RPCs, they are checked for staleness
+	// first (a GRAFT must not be retried once the peer is no longer in the mesh, e.g.
+	// because it pruned us meanwhile and is now backed off)
 	for p, ctl := range gs.control {
 		delete(gs.control, p)
-		out := rpcWithControl(nil, nil, nil, ctl.Graft, ctl.Prune, nil)
+		out := rpcWithControl(nil, nil, nil, nil, nil, nil)
+		gs.piggybackControl(p, out, ctl)
+		if len(out.Control.Graft) == 0 && len(out.Control.Prune) == 0 {
+			continue
+		}
 		gs.sendRPC(p, out, false)
 	}
 }
